@@ -381,6 +381,32 @@ def _module_map_entries(rep, relpath, mn, name, table, line):
     return n
 
 
+def check_table_owner(rep, mapname):
+    """TAB.single-writer: the look-alike table belongs to stdnum/util.py.  Another module that imports it can change it for every
+    module of the process (at import time or later): what clean() does then depends on which modules have been imported."""
+    from ..strabs.model import Program
+    from ..common import rel
+    prog = Program()
+    n = 0
+    for mn in sorted(prog.mods):
+        if mn == 'stdnum.util':
+            continue
+        m = prog.mods[mn]
+        for x in ast.walk(m.tree):
+            hit = None
+            if isinstance(x, ast.ImportFrom) and x.module in ('stdnum.util', 'util') and any(a.name == mapname for a in x.names):
+                hit = x
+            elif isinstance(x, ast.Attribute) and x.attr == mapname and src(x.value).endswith('util'):
+                hit = x
+            if hit is not None:
+                n += 1
+                rep.fail('TAB.single-writer', rel(m.path), '-', src(hit)[:100], hit.lineno,
+                         '%s reaches into stdnum.util.%s: the table clean() applies is shared by every module, a change made here (at import or at call '
+                         'time) alters the clean-up of all other formats and makes it depend on the import history' % (mn.replace('stdnum.', ''), mapname))
+    if not n:
+        rep.ok('TAB.single-writer', 'stdnum/*', 'no module other than stdnum.util refers to %s' % mapname)
+
+
 def check(tier):
     rep = Report('C14', tier, level='proof',
                  rule_text='every entry of the look-alike table literal in stdnum/util.py is checked against the Unicode '
@@ -433,6 +459,7 @@ def check(tier):
                   what='U+%04X target %r is a fixed point' % (ord(ch), tgt))
     rep.expect_at_least('TAB.single', 150, 'look-alike table entries')
     check_pipeline(rep, funcs, mapname)
+    check_table_owner(rep, mapname)
     # exhaustive tabulation of the derived transformer over every code point
     bad = 0
     changed = 0
